@@ -9,6 +9,12 @@
 (*   delete    block.Delete      (pkg/block/block.go)                      *)
 (*   upload_prom  block.UploadPromBlock: the same procedure for a block    *)
 (*             without Thanos external labels (phase 2)                    *)
+(* Fault kinds: Crash (below) and, second round, PER-OBJECT DENIAL: the   *)
+(* uploads of one chosen object (a chunk segment or the index) are refused *)
+(* - persistently or for the first attempts - while every other operation  *)
+(* succeeds.  A refused upload makes the procedure return its error: the   *)
+(* other segment uploads of a concurrent UploadDir may still complete,     *)
+(* nothing after the chunk directory is uploaded.                          *)
 (* Phase 2: deletion also starts from blocks that carry further marker     *)
 (* objects (no-compact-mark.json, no-downsample-mark.json) next to the     *)
 (* deletion mark.                                                          *)
@@ -20,7 +26,8 @@
 EXTENDS BlockLifecycle, TLC, Json, IOUtils, SequencesExt
 CONSTANTS MaxSeg,       \* blocks have 1..MaxSeg chunk segment files
           MaxCrashes,   \* crashes per execution
-          CaseCrashes   \* crash points per generated case (leg B), <= MaxCrashes
+          CaseCrashes,  \* crash points per generated case (leg B), <= MaxCrashes
+          MaxDeny       \* refused attempts of the denied object: subset of {1, 2, ..., 99 (= all)}
 
 B == "b1"
 SegNames == <<"chunks/000001", "chunks/000002", "chunks/000003", "chunks/000004">>
@@ -49,18 +56,26 @@ VARIABLES nseg, proc, conc, pre,   \* the case: chosen in Init, never changed
           pc,         \* program counter of the running procedure
           todo,       \* files the current loop still has to handle
           crashes,    \* crashes so far
-          delMarked   \* history variable of C28 clause 2 (see BlockLifecycle)
-vars == <<nseg, proc, conc, pre, bkt, pc, todo, crashes, delMarked>>
+          delMarked,  \* history variable of C28 clause 2 (see BlockLifecycle)
+          deny,       \* the object whose uploads are refused ("none" or a file name), chosen in Init
+          denyLeft    \* how many more attempts are refused (99 = all of them)
+vars == <<nseg, proc, conc, pre, bkt, pc, todo, crashes, delMarked, deny, denyLeft>>
 
 Init == /\ nseg \in 1..MaxSeg /\ proc \in Procs /\ conc \in BOOLEAN
         /\ (conc => proc \in {"upload", "upload_prom", "ship"})       \* only block.Upload has a concurrency option
         /\ pre \in Pres(proc)
         /\ bkt = PreBucket(pre, nseg)
         /\ pc = "start" /\ todo = {} /\ crashes = 0 /\ delMarked = {}
+        /\ deny \in (IF proc = "delete" THEN {"none"} ELSE {"none", IndexF} \cup { SegNames[k] : k \in 1..nseg })
+        /\ denyLeft \in (IF deny = "none" THEN {0} ELSE MaxDeny)
 
 Case == <<nseg, proc, conc, pre>>
 Put(o) == bkt' = { x \in bkt : ~(x.b = o.b /\ x.f = o.f) } \cup {o}      \* upload overwrites
-Keep == UNCHANGED <<nseg, proc, conc, pre, crashes>>
+Keep == UNCHANGED <<nseg, proc, conc, pre, crashes, deny, denyLeft>>
+KeepCase == UNCHANGED <<nseg, proc, conc, pre, deny>>
+Refused(o) == o.f = deny /\ denyLeft # 0
+Always == 99       \* "every attempt"
+Spend == denyLeft' = IF denyLeft = Always THEN Always ELSE denyLeft - 1
 
 Start == /\ pc = "start"
          /\ pc' = CASE proc \in {"upload", "upload_prom"} -> "u_segs" [] proc = "ship" -> "s_exists"
@@ -71,10 +86,10 @@ Start == /\ pc = "start"
 (* ---- block.upload: chunk segments (objstore.UploadDir, up to `concurrency` at a time), index, meta.json last ---- *)
 NextSegs == IF conc THEN todo ELSE {CHOOSE x \in todo : \A y \in todo : x.s <= y.s}
 UploadSeg == /\ pc = "u_segs" /\ todo # {}
-             /\ \E o \in NextSegs : Put(o) /\ todo' = todo \ {o}
+             /\ \E o \in NextSegs : ~Refused(o) /\ Put(o) /\ todo' = todo \ {o}
              /\ UNCHANGED <<pc, delMarked>> /\ Keep
 UploadSegsDone == /\ pc = "u_segs" /\ todo = {} /\ pc' = "u_index" /\ UNCHANGED <<bkt, todo, delMarked>> /\ Keep
-UploadIndex == /\ pc = "u_index" /\ Put(Index) /\ pc' = "u_meta" /\ UNCHANGED <<todo, delMarked>> /\ Keep
+UploadIndex == /\ pc = "u_index" /\ ~Refused(Index) /\ Put(Index) /\ pc' = "u_meta" /\ UNCHANGED <<todo, delMarked>> /\ Keep
 UploadMeta == /\ pc = "u_meta" /\ Put(Meta) /\ pc' = "done" /\ UNCHANGED <<todo, delMarked>> /\ Keep
 
 (* ---- shipper: skip the block when its meta.json exists, else block.Upload ---- *)
@@ -89,11 +104,13 @@ ReplCmp == /\ pc = "r_cmp"
            /\ UNCHANGED <<bkt, delMarked>> /\ Keep
 ReplSeg == /\ pc = "r_segs" /\ todo # {}
            /\ LET o == CHOOSE x \in todo : \A y \in todo : x.s <= y.s IN
+              /\ (HasObj(bkt, o.b, o.f) \/ ~Refused(o))
               /\ (IF HasObj(bkt, o.b, o.f) THEN UNCHANGED bkt ELSE Put(o))
               /\ todo' = todo \ {o}
            /\ UNCHANGED <<pc, delMarked>> /\ Keep
 ReplSegsDone == /\ pc = "r_segs" /\ todo = {} /\ pc' = "r_index" /\ UNCHANGED <<bkt, todo, delMarked>> /\ Keep
 ReplIndex == /\ pc = "r_index"
+             /\ (HasObj(bkt, B, IndexF) \/ ~Refused(Index))
              /\ (IF HasObj(bkt, B, IndexF) THEN UNCHANGED bkt ELSE Put(Index))
              /\ pc' = "u_meta" /\ UNCHANGED <<todo, delMarked>> /\ Keep
 
@@ -114,14 +131,36 @@ DeleteMark == /\ pc = "d_mark"
               /\ (IF Mark \in bkt THEN Del(Mark) ELSE UNCHANGED <<bkt, delMarked>>)
               /\ pc' = "done" /\ UNCHANGED todo /\ Keep
 
+(* ---- per-object denial: the upload of the denied object is refused; the procedure returns the error ---- *)
+RefusedNow == CASE pc = "u_segs"  -> todo # {} /\ \E o \in NextSegs : Refused(o)
+                [] pc = "u_index" -> Refused(Index)
+                [] pc = "r_segs"  -> todo # {} /\ LET o == CHOOSE x \in todo : \A y \in todo : x.s <= y.s IN ~HasObj(bkt, o.b, o.f) /\ Refused(o)
+                [] pc = "r_index" -> ~HasObj(bkt, B, IndexF) /\ Refused(Index)
+                [] OTHER -> FALSE
+UploadRefused == /\ RefusedNow /\ Spend
+                 /\ todo' = IF pc = "u_segs" /\ conc THEN { o \in todo : o.f # deny } ELSE {}   \* concurrent UploadDir: siblings in flight
+                 /\ pc' = "u_fail"
+                 /\ UNCHANGED <<bkt, crashes, delMarked>> /\ KeepCase
+(* siblings of a refused segment that were already in flight may still land *)
+UploadSibling == /\ pc = "u_fail" /\ todo # {}
+                 /\ \E o \in todo : /\ todo' = todo \ {o}
+                                   /\ \/ Put(o)
+                                      \/ UNCHANGED bkt              \* cancelled before it was sent
+                 /\ UNCHANGED <<pc, delMarked>> /\ Keep
+(* the procedure returned its error: the caller runs it again (bounded like crashes), or gives up *)
+FailEnd == /\ pc = "u_fail" /\ todo = {}
+           /\ IF crashes < MaxCrashes THEN pc' = "start" /\ crashes' = crashes + 1 ELSE pc' = "failed" /\ UNCHANGED crashes
+           /\ UNCHANGED <<bkt, todo, delMarked, denyLeft>> /\ KeepCase
+
 (* ---- crash: the process dies, the bucket stays, the procedure is started again ---- *)
-Crash == /\ pc \notin {"start", "done"} /\ crashes < MaxCrashes
+Crash == /\ pc \notin {"start", "done", "failed"} /\ crashes < MaxCrashes
          /\ crashes' = crashes + 1 /\ pc' = "start" /\ todo' = {}
-         /\ UNCHANGED <<nseg, proc, conc, pre, bkt, delMarked>>
+         /\ UNCHANGED <<nseg, proc, conc, pre, bkt, delMarked, deny, denyLeft>>
 
 Step == Start \/ UploadSeg \/ UploadSegsDone \/ UploadIndex \/ UploadMeta \/ ShipExists
         \/ ReplCmp \/ ReplSeg \/ ReplSegsDone \/ ReplIndex
         \/ DeleteMeta \/ DeleteFile \/ DeleteFilesDone \/ DeleteMark
+        \/ UploadRefused \/ UploadSibling \/ FailEnd
 Next == Step \/ Crash
 Spec == Init /\ [][Next]_vars /\ WF_vars(Step)
 
@@ -132,7 +171,7 @@ C28_MarkKeptUntilLast == C28_MarkLost(bkt, delMarked) = {}
 (* the procedures do their job (not part of C28, guards against a vacuous model) *)
 DoneMeansDone == pc = "done" =>
     IF proc = "delete" THEN bkt = {} ELSE BlockComplete(bkt, ListedNow, B) /\ Files(nseg) \subseteq bkt
-Terminates == <>(pc = "done")
+Terminates == <>(pc \in {"done", "failed"})
 (* algorithm-level step constraints used for DRIFT in the trace spec hold in the model *)
 AlgoStepsHold == [][ /\ \A o \in bkt' \ bkt : AlgoUploadStepOK(bkt, Files(nseg), o.b, o.f)
                      /\ \A o \in bkt \ bkt' : AlgoDeleteStepOK(bkt, o.b, o.f) ]_vars
@@ -142,10 +181,12 @@ AlgoStepsHold == [][ /\ \A o \in bkt' \ bkt : AlgoUploadStepOK(bkt, Files(nseg),
 CasesFile == IF "VERIF_CASES" \in DOMAIN IOEnv THEN IOEnv.VERIF_CASES ELSE "cases.ndjson"
 MaxMut == MaxSeg + 5       \* >= mutating calls of any procedure (delete: meta, files, mark, 2 directory markers)
 CrashSeqs == UNION { [1..k -> 1..MaxMut] : k \in 0..CaseCrashes }
-CaseSet == { [proc |-> p, nseg |-> n, conc |-> c, pre |-> q, crashes |-> cr] :
+DenyOpts(n) == { [obj |-> "none", times |-> 0] } \cup { [obj |-> o, times |-> k] : o \in {"index"} \cup { SegNames[i] : i \in 1..n }, k \in MaxDeny }
+CaseSet == { [proc |-> p, nseg |-> n, conc |-> c, pre |-> q, crashes |-> cr, deny |-> d] : d \in DenyOpts(MaxSeg),
                p \in Procs, n \in 1..MaxSeg, c \in BOOLEAN, q \in {"empty", "complete", "complete+mark", "partial", "partial+mark", "complete+marks", "partial+marks"},
                cr \in CrashSeqs }
 CaseOK(c) == c.pre \in Pres(c.proc) /\ (c.conc => c.proc \in {"upload", "upload_prom", "ship"})
              /\ \A i \in DOMAIN c.crashes : c.crashes[i] <= c.nseg + 5
+             /\ (c.deny.obj # "none" => c.proc # "delete" /\ c.crashes = <<>> /\ c.deny.obj \in {"index"} \cup { SegNames[kk] : kk \in 1..c.nseg })
 ASSUME ndJsonSerialize(CasesFile, SetToSeq({ c \in CaseSet : CaseOK(c) }))
 =============================================================================
